@@ -18,6 +18,23 @@ PROPS["C16"] = {
     "assumptions": ["caller passes totalFreq = sum of freqs (true at all three call sites)", "Go int is 64-bit (C16_no_overflow bounds intermediates below 2^63 for totals < 2^31)"],
 }
 
+C07_THMS = ["C07_enc_mutex","C07_dec_mutex","C07_enc_ordered","C07_dec_ordered","C07_enc_progress","C07_dec_progress",
+            "C07_enc_measure_mono","C07_dec_measure_mono","C07_enc_measure_init","C07_dec_measure_init",
+            "C07_enc_cancel_stable","C07_dec_cancel_stable","C07_enc_crit_failure_blocks","C07_dec_crit_failure_blocks",
+            "C07_failure_reported","C07_first_failure","C04_schedule_independent","C05_schedule_independent","C07_runTrace_sound"]
+
+PROPS["C07"] = {
+    "title": "Block hand-off protocol: exclusive, ordered, and always terminating",
+    "design_ref": "5.7",
+    "level": "proof",
+    "technique": "Lean 4 invariant proofs for every N and every interleaving over a step-function model of the atomic-counter protocol; hook traces of the real code replayed through the same step functions",
+    "theorems": T("Kanzi.Properties.C07", *["Kanzi.C07." + n for n in C07_THMS]),
+    "streams": [{"name": "proto", "kmodel": "proto", "timeout": 1200}],
+    "level_text": "PROOF for every number of tasks N and every reachable state (all interleavings, failure at any step): mutual exclusion on the shared stream, blocks appended/taken in id order exactly once, deadlock freedom with a measure bounded by 9N (every weakly fair run terminates), cancel value stable, a failure while holding the token blocks all later tasks, batch result = first failed task. Tie: the real encode/decode tasks run under the build-tag hook with perturbed schedules and injected failures; every recorded atomic action (with the counter value it observed) must be an enabled transition of encStep/decStep and the batch outcome must match.",
+    "level_note": "Trusted: Lean kernel; the protocol model Kanzi/Model/Protocol.lean (atomic actions of encode/decode transcribed by hand, tied by trace replay of hook-instrumented real runs: the hook serialises each atomic op between PRE/POST calls so the recorded order is the real order); Go memory model / sync.WaitGroup semantics are not modelled; 'stop promptly' is formalised as bounded own steps + stable cancel.",
+    "assumptions": ["sync/atomic operations are sequentially consistent (Go memory model)", "WaitGroup.Wait returns only after every Done"],
+}
+
 HOOK_COMMITS = ["a321cbc"]
 
 # properties not (yet) claimed: reason shown in MANIFEST.not_applicable
